@@ -160,6 +160,84 @@ type H015 struct {
 	M  map[string]int32 `parquet:"m" parquet-value:",optional"`
 }
 
+// Round 5: whether a non-pointer value on an optional node gets the optional wrapper of the typed
+// path is decided per Go kind at three sites (struct field, list element, map value: pointer /
+// interface / []byte vs other slices / JSON text on a JSON column / everything else). The struct
+// field site is covered by the whole catalogue; H017 puts every leaf kind of the null-index
+// dispatch (and a struct) on an optional MAP VALUE, H018 on an optional LIST ELEMENT, at the top
+// level, in an optional map / optional list, below a pointer and below a slice. C03 only.
+type H017V struct {
+	X int32  `parquet:"x"`
+	Y string `parquet:"y,optional"`
+}
+
+type H017In struct {
+	B map[string][]byte `parquet:"b" parquet-value:",optional"`
+	S map[string]string `parquet:"s,optional" parquet-value:",optional"`
+	N int32             `parquet:"n"`
+}
+
+type H017 struct {
+	ID int64                `parquet:"id"`
+	B  map[string][]byte    `parquet:"b" parquet-value:",optional"`
+	S  map[string]string    `parquet:"s" parquet-value:",optional"`
+	F  map[string][5]byte   `parquet:"f" parquet-value:",optional"`
+	O  map[string]bool      `parquet:"o" parquet-value:",optional"`
+	I8 map[string]int8      `parquet:"i8" parquet-value:",optional"`
+	U6 map[string]uint16    `parquet:"u6" parquet-value:",optional"`
+	U3 map[string]uint32    `parquet:"u3" parquet-value:",optional"`
+	L  map[string]int64     `parquet:"l" parquet-value:",optional"`
+	G  map[string]float32   `parquet:"g" parquet-value:",optional"`
+	D  map[string]float64   `parquet:"d" parquet-value:",optional"`
+	J  map[string]string    `parquet:"j" parquet-value:",optional,json"`
+	JB map[string][]byte    `parquet:"jb" parquet-value:",optional,json"`
+	BS map[string][]byte    `parquet:"bs" parquet-value:",optional,string"`
+	ST map[string]H017V     `parquet:"st" parquet-value:",optional"`
+	W  map[string][]byte    `parquet:"w,optional" parquet-value:",optional"`
+	In *H017In              `parquet:"in"`
+	LI []H017In             `parquet:"li"`
+}
+
+// time.Time map values (optional and required) are kept in a type of their own: files holding
+// them are written correctly by every path, but no reader API gives them back (reconstructFuncOfMap
+// builds its leaf reader from the int64 key-value type of the schema node: panic "reflect.Set:
+// value of type int64 is not assignable to type time.Time"). Reported in round 5; until it is
+// repaired or filed, the read-back of this type is an observation (Entry.OpenReadBack), the
+// stream oracles of C03 apply in full. Same root cause, NOT in the catalogue (it fails the stream
+// oracle on the six reflection paths; repro/C03/round5_map_list_shapes_test.go.txt): a unit tag on
+// the value (parquet-value:",timestamp(millisecond)") is honoured by the typed path only, the
+// reflection paths store nanoseconds in the millisecond column.
+type H019 struct {
+	ID int64                `parquet:"id"`
+	T  map[string]time.Time `parquet:"t" parquet-value:",optional"`
+	R  map[string]time.Time `parquet:"r"`
+}
+
+type H018In struct {
+	B [][]byte `parquet:"b,list" parquet-element:",optional"`
+	N int32    `parquet:"n"`
+}
+
+type H018 struct {
+	B  [][]byte    `parquet:"b,list" parquet-element:",optional"`
+	F  [][5]byte   `parquet:"f,list" parquet-element:",optional"`
+	O  []bool      `parquet:"o,list" parquet-element:",optional"`
+	I8 []int8      `parquet:"i8,list" parquet-element:",optional"`
+	U6 []uint16    `parquet:"u6,list" parquet-element:",optional"`
+	L  []int64     `parquet:"l,list" parquet-element:",optional"`
+	G  []float32   `parquet:"g,list" parquet-element:",optional"`
+	D  []float64   `parquet:"d,list" parquet-element:",optional"`
+	T  []time.Time `parquet:"t,list" parquet-element:",optional"`
+	J  []string    `parquet:"j,list" parquet-element:",optional,json"`
+	JB [][]byte    `parquet:"jb,list" parquet-element:",optional,json"`
+	BS [][]byte    `parquet:"bs,list" parquet-element:",optional,string"`
+	ST []H017V     `parquet:"st,list" parquet-element:",optional"`
+	OB [][]byte    `parquet:"ob,optional,list" parquet-element:",optional"`
+	In *H018In     `parquet:"in"`
+	LI []H018In    `parquet:"li"`
+	E  int32       `parquet:"e"`
+}
+
 // MapValueOptCatalog: map types with optional non-pointer values (C03 only; not in MapCatalog).
 var MapValueOptCatalog []*Entry
 
@@ -167,6 +245,17 @@ func init() {
 	if e := entryOf[H015]("H015"); e != nil {
 		e.HasMap = true
 		e.Shape = "optional-nonpointer-map-value"
+		MapValueOptCatalog = append(MapValueOptCatalog, e)
+	}
+	if e := entryOf[H017]("H017"); e != nil {
+		e.HasMap = true
+		e.Shape = "optional-nonpointer-map-value"
+		MapValueOptCatalog = append(MapValueOptCatalog, e)
+	}
+	if e := entryOf[H019]("H019"); e != nil {
+		e.HasMap = true
+		e.Shape = "time-map-value"
+		e.OpenReadBack = "map-of-time-values-cannot-be-read-back"
 		MapValueOptCatalog = append(MapValueOptCatalog, e)
 	}
 }
@@ -229,6 +318,10 @@ func init() {
 	}
 	// round 4: C03 only (not registered in the shared catalogue)
 	if e := entryOf[H014]("H014"); e != nil {
+		ExtCatalog = append(ExtCatalog, e)
+	}
+	// round 5: C03 only
+	if e := entryOf[H018]("H018"); e != nil {
 		ExtCatalog = append(ExtCatalog, e)
 	}
 	if e := entryOf[H010]("H010"); e != nil {
